@@ -25,7 +25,11 @@ Independent specification of C20, written from the property text (not from the c
   GenericMixin class, partially bound parameters, a `Generic[…]` re-declared over a GenericMixin base, generic classes listed as
   plain (unsubscripted) mixins, diamonds.
 * `expectedDecorated`: for every member of the enum, the methods (by defining class and name) that are visible on the
-  instance and were decorated through `create_decorator(member)`, with the argument of the outermost such application.
+  instance and were decorated through `create_decorator(member)`, with the argument of the outermost such application — the
+  plain, class and static methods of the classes alike, whatever their names (dunder names included).  "The bound methods" of
+  the property text is read as "the methods as the instance sees them": a plain method bound to the instance, a class method
+  bound to the class; a static method has no bound form — `instance.s` is the function, and that stands for it.  A name that the
+  instance `__dict__` defines itself is no method of the instance.
 -/
 namespace PedVerif.Mixins
 
@@ -185,11 +189,13 @@ def definesName (t : Table) (n : Name) (c : Nat) : Bool := (nsOf t c).any fun p 
 def isDunder (n : Name) : Bool := decide (2 ≤ n.unders)
 
 /-- the method definitions of class `c` (position `pre.length` in the MRO `pre ++ c :: _`) that the instance sees
-    and that carry key `k` -/
+    and that carry key `k` — plain methods, class methods and static methods alike: "the methods of a class" that were decorated.
+    (Through the instance a plain method is a method bound to the instance, a class method a method bound to the class; a static
+    method has no bound form — `instance.s` is the function itself, and that is what stands for it in the result.) -/
 def decoratedIn (t : Table) (k : Key) (pre : List Nat) (c : Nat) : List ((Nat × Name) × Val) :=
   (nsOf t c).filterMap fun p =>
     match p.2 with
-    | .func .inst apps =>
+    | .func _ apps =>
       if pre.any (definesName t p.1) then none
       else (outermost k apps).map fun v => ((c, p.1), v)
     | _ => none
@@ -224,57 +230,30 @@ def keyFree (members : List Key) (attrs : List (Key × Val)) : Bool := attrs.all
 
 /-- a member of a class namespace stays inside the property's vocabulary:
     * transformations keep the function attributes (return the function or a functools.wraps wrapper);
-    * only plain methods with non-dunder names are decorated with members of the enum;
-    * other objects reachable through the instance do not carry attributes named like enum values — neither in their `__dict__` nor
-      by themselves: functions / bound methods (`__doc__`, `__name__`), the str that `class_name` returns (`upper`), the dict that
-      `type_vars` returns (`get`, `keys`), the enum class that `type_var` returns (member names, `upper`);
-    * no property raises. -/
-def memberOk (members : List Key) (ia : Intr) (n : Name) : MemberDef → Bool
-  | .func .inst apps =>
-    apps.all (fun a => a.tr != Tr.fresh) && (!(isDunder n) || apps.all fun a => !members.contains a.ty) && keyFree members ia.fn
-  | .func _ apps => (apps.all fun a => !members.contains a.ty) && keyFree members ia.fn
-  | .other _ attrs => keyFree members attrs
-  | .raising _ => isDunder n
-  | .typeVarProp => keyFree members ia.cls
-  | .typeVarsProp => keyFree members ia.dict
-  | .classNameProp => keyFree members ia.str
-
-/-- an entry of the instance `__dict__` stays inside the vocabulary: it carries no attribute named like an enum value -/
-def instOk (members : List Key) (ia : Intr) : InstVal → Bool
-  | .fn _ apps => (apps.all fun a => !members.contains a.ty) && keyFree members ia.fn
-  | .obj _ attrs => keyFree members attrs
+    * no enum value is the name of something that function objects define by themselves (`__doc__`, `__name__`): `create_decorator`
+      marks a function by setting an attribute of that name, and for these names that is a slot of the function, not a mark.
+    Everything else may live in the class: properties (raising or not), static and class methods, dunder-named methods, objects that
+    carry attributes named like enum values, enum values that are attribute names of `str` / `dict` / the enum class. -/
+def memberOk (members : List Key) (ia : Intr) (_n : Name) : MemberDef → Bool
+  | .func _ apps => apps.all (fun a => a.tr != Tr.fresh) && keyFree members ia.fn
+  | _ => true
 
 def decoGuard (t : Table) (mro : List Nat) (members : List Key) (ia : Intr) (inst : InstNs) : Bool :=
   decide members.Nodup && (mro.all fun c =>
     decide ((nsOf t c).map (·.1)).Nodup && (nsOf t c).all fun p => memberOk members ia p.1 p.2) &&
-  decide (inst.map (·.1)).Nodup && inst.all fun p => instOk members ia p.2
+  decide (inst.map (·.1)).Nodup
 
 /-! ### the regions outside the guard, by name (finding ids of `known_findings.json`) -/
 
 /-- which clause of the guard a class member breaks -/
-def memberRegions (members : List Key) (ia : Intr) (n : Name) : MemberDef → List String
-  | .func .inst apps =>
-    (if apps.all (fun a => a.tr != Tr.fresh) then [] else ["transformationDropsDecoratorAttribute"]) ++
-    (if !(isDunder n) || apps.all (fun a => !members.contains a.ty) then [] else ["decoratedDunderMethodSkipped"]) ++
-    (if keyFree members ia.fn then [] else ["enumValueCollidesWithAttributeName"])
+def memberRegions (members : List Key) (ia : Intr) (_n : Name) : MemberDef → List String
   | .func _ apps =>
-    (if apps.all (fun a => !members.contains a.ty) then [] else ["decoratedStaticOrClassMethodReported"]) ++
-    (if keyFree members ia.fn then [] else ["enumValueCollidesWithAttributeName"])
-  | .other _ attrs => if keyFree members attrs then [] else ["foreignObjectWithDecoratorAttributeReported"]
-  | .raising _ => if isDunder n then [] else ["propertyEvaluatedByScan"]
-  | .typeVarProp => if keyFree members ia.cls then [] else ["enumValueCollidesWithAttributeName"]
-  | .typeVarsProp => if keyFree members ia.dict then [] else ["enumValueCollidesWithAttributeName"]
-  | .classNameProp => if keyFree members ia.str then [] else ["enumValueCollidesWithAttributeName"]
-
-def instRegions (members : List Key) (ia : Intr) : InstVal → List String
-  | .fn _ apps =>
-    (if apps.all (fun a => !members.contains a.ty) then [] else ["foreignObjectWithDecoratorAttributeReported"]) ++
-    (if keyFree members ia.fn then [] else ["enumValueCollidesWithAttributeName"])
-  | .obj _ attrs => if keyFree members attrs then [] else ["foreignObjectWithDecoratorAttributeReported"]
+    (if apps.all (fun a => a.tr != Tr.fresh) then [] else ["transformationDropsDecoratorAttribute"]) ++
+    (if keyFree members ia.fn then [] else ["enumValueNamesFunctionSlot"])
+  | _ => []
 
 /-- the named regions a program lies in (empty inside the guard, see `guard_iff_no_region`) -/
-def guardRegions (t : Table) (mro : List Nat) (members : List Key) (ia : Intr) (inst : InstNs) : List String :=
-  (mro.flatMap fun c => (nsOf t c).flatMap fun p => memberRegions members ia p.1 p.2) ++
-  inst.flatMap fun p => instRegions members ia p.2
+def guardRegions (t : Table) (mro : List Nat) (members : List Key) (ia : Intr) : List String :=
+  mro.flatMap fun c => (nsOf t c).flatMap fun p => memberRegions members ia p.1 p.2
 
 end PedVerif.Mixins
